@@ -191,8 +191,8 @@ theorem chess_mate_in_one_played (k : ZKeys) (b : Board) (hg : Good b) (D qfuel 
   exact ⟨m, e, (mem_moves_iff k hv m).1 hmem, (mates_iff k hv hmem).1 hmt⟩
 
 /-- **An avoidable mate in one is avoided (chess)**, depth 2 and 3.  Root `b` good, the hash separates the boards
-    within `D` plies of `b`, the reference values of depths `1..D` exist with quiescence fuel `qf ≤ qfuel` (the
-    quiescence trees below the horizon are finite), fresh state, completed run, no deeper record reused.  If
+    within `D` plies of `b`, the reference values of depths `1..D` exist with quiescence fuel `qf ≤ qfuel` (always
+    true for `qf = QFUEL`: `QSpecChess.chess_avoidable_mate_avoided_total`), fresh state, completed run, no deeper record reused.  If
     some legal move does not allow a mate in one, the engine answers with a legal move that does not allow one. -/
 theorem chess_avoidable_mate_avoided (k : ZKeys) (b : Board) (hg : Good b) (D qf qfuel : Nat) (limit : Limit)
     (hD : D = 2 ∨ D = 3) (hq : qf ≤ qfuel)
@@ -215,7 +215,8 @@ theorem chess_avoidable_mate_avoided (k : ZKeys) (b : Board) (hg : Good b) (D qf
 
 /-- **The search computes minimax (chess).**  Root `b` valid, depth `D ≥ 1`, any limit; the hash separates the
     boards within `D` plies of `b`; the reference values `Spec.V` (plain minimax over the engine's game, whose
-    moves at valid boards are exactly the rules-legal moves) of depths `1..D` exist with fuel `qf ≤ qfuel`; the
+    moves at valid boards are exactly the rules-legal moves) of depths `1..D` exist with fuel `qf ≤ qfuel` (always
+    true on a good board for `qf = QFUEL`: `QSpecChess.chess_find_best_move_value_total`); the
     table is class-sound on the horizon (true of the empty table: `C05.ttSound_fresh`), the repetition stack is
     empty, the run completed and reused no deeper record.  Then the reported score is the depth-`D` minimax value
     `v` up to the won / lost class — EQUAL to `v` when `v` lies strictly inside (-32767, 32767) —, a legal move
